@@ -2321,6 +2321,13 @@ class Flattener:
             self.log.append("scalarize_objects failed for %s: %r" % (fi.fq, e))
             pre_changed = False
         any_change = bool(pre_changed)
+        # calls of a hand-written scalar bit allocator are PrivValBool (lemma (D), sa/bitnorm.py): before the helper is inlined
+        from .bitnorm import scalar_allocators, rewrite_scalar_allocators
+        if not hasattr(fi.module, "_scalar_allocators"):
+            fi.module._scalar_allocators = scalar_allocators(fi.module.tree)
+        if fi.module._scalar_allocators and rewrite_scalar_allocators(fi.node, fi.module._scalar_allocators):
+            any_change = True
+            self.log.append("%s: hand-written bit allocator call rewritten to PrivValBool by lemma (D)" % fi.fq)
         for _ in range(MAX_ROUNDS):
             if _const_table_lookups(fi):
                 any_change = True
